@@ -1,5 +1,6 @@
 import ClientGoVerif.Model.Retry
 import ClientGoVerif.Model.Selector
+import ClientGoVerif.Model.Validate
 open CGV CGV.Retry
 
 /-- driver session: configuration being assembled, then the model state and the trace it accepted -/
@@ -212,6 +213,32 @@ def stepLine (ss : Sess) (line : String) : Sess × String :=
                else (ss, "rej end " ++ d)
              else (ss, "rej end " ++ d)
        | _ => (ss, "bad-op"))
+  | ["valcmds", l] =>
+    let seen := (l.splitOn ",").filterMap fun t =>
+      match t.splitOn ":" with
+      | [v, b] => (v.toNat?).bind fun v => (parseBool b).map fun b => (v, b)
+      | _ => none
+    (match Validate.checkEnumeration seen with
+     | none => (ss, "ok")
+     | some e => (ss, "rej " ++ e))
+  | ["chk-validate", v, _name, pkg, fields, ts, validate, stale] =>
+    (match v.toNat?, parseBool validate, parseBool stale with
+     | some v, some validate, some stale =>
+       let shape : Validate.Shape := { pkg := pkg, fields := if fields == "-" then [] else fields.splitOn "," }
+       if !Validate.knownShape shape then (ss, "rej unknown-ts-field")
+       else if !(["valid", "ahead", "maxint", "maxu1", "max"].contains ts) then (ss, "bad-op")
+       else
+         -- the shape-based spec and the classification of Request.GetStartTS' row must agree
+         let agree := match Validate.rowOf v with
+           | some r => Validate.mustValidateGetter r.2.1 r.2.2 == Validate.mustValidate shape
+           | none => !Validate.mustValidate shape
+         if !agree then (ss, "rej shape-vs-GetStartTS")
+         else
+           let c := Validate.senderCfg { n := 3, maxSleep := 100, isWrite := false, tsInvalid := false, hints := 0, shortRead := false }
+                      validate shape ts stale
+           -- the model sender: refused iff its only legal run is `result err tsinvalid`
+           (ss, if c.tsInvalid then "refused" else "passed")
+     | _, _, _ => (ss, "bad-op"))
   | ["prop", p] =>
     match ss.st with
     | none => (ss, "bad-op")
